@@ -153,6 +153,32 @@ def t_chains(L, maxk=3, shard=0, nshards=1):
     return stats
 
 
+def t_long():
+    """match sequences of 70 / 130 / 1000 elements and chains of up to 8 steps with counts around 0, 63..65, L (pseudo-random, fixed seed)"""
+    import random
+    stats = Stats()
+    rng = random.Random(41)
+    n = 0
+    for L in (70, 130, 1000):
+        counts = [0, 1, 2, 9, 10, 31, 32, 33, 63, 64, 65, L // 2, L - 65, L - 64, L - 1, L, L + 1, -1]
+        for _ in range(700 if L < 1000 else 120):
+            k = rng.choice([1, 2, 3, 4, 5, 6, 8])
+            chain = []
+            for _ in range(k):
+                op = rng.choice(CHAIN_OPS)
+                c = rng.choice(counts) if rng.random() < 0.8 else rng.randrange(0, L + 2)
+                if op.startswith("tee"):
+                    c = 0
+                chain.append((op, c))
+            apply_chain(stats, L, tuple(chain))
+            n += 1
+            if k >= 3:
+                stats.nt("long-chain", L, repr(chain))
+    stats.subspaces.append({"name": "1520 pseudo-random chains of 1-8 steps on match sequences of 70 / 130 / 1000 elements, counts at 0, 9/10, 31..33, 63..65, L-65..L+1",
+                            "size": n, "exhaustive": False})
+    return stats
+
+
 def t_terminals():
     """first_one/one/last_one and the four views after every prefix operation"""
     stats = Stats()
@@ -329,6 +355,12 @@ def t_machine(seed, n):
 
 
 def tasks(tier, seed):
+    ts = _tasks(tier, seed)
+    ts.append({"name": "long", "fn": "t_long"})
+    return ts
+
+
+def _tasks(tier, seed):
     ts = [{"name": "chains-L%d" % L, "fn": "t_chains", "kw": {"L": L}} for L in range(0, 6)]
     if tier == "thorough":
         ts = [{"name": "chains4-L%d-%d" % (L, k), "fn": "t_chains", "kw": {"L": L, "maxk": 4, "shard": k, "nshards": 8}} for L in range(0, 5) for k in range(8)]
